@@ -18,10 +18,12 @@ import deribit_lib as L
 from common import Ctx, driver_json
 
 PROPERTY = "C16"
-LEAN_MODULES = ["Proofs.C16", "Proofs.C16.Run"]
+LEAN_MODULES = ["Proofs.C16", "Proofs.C16.Run", "Proofs.C16.Trades"]
 DRIVERS = ["driver_deribit"]
-RULE = ("whole backtests through Actuator.run: 2-5 hours, interval 1min (with a minutely Uniswap co-market) / 5min / 1h; calls and puts, strikes around the "
-        "underlying path and around the fallback token price, expiry before the first bar / on an hour / between hours / after the last bar, instrument "
+RULE = ("whole backtests through Actuator.run: 2-5 hours at interval 1min (with a minutely Uniswap co-market), 3-8 hours at 5min / 1h, 6-14 hours at "
+        "2h / 4h (resampled option data, whole coarse bars without option data); calls and puts, strikes around the underlying path and around the "
+        "fallback token price, 40 % of the instruments expiring within 0.02 % of the strike with a mark independent of intrinsic (payoff below the "
+        "delivery fee); strategy calls from before_bar / on_bar / after_bar / notify; expiry before the first bar / on an hour / between hours / after the last bar, instrument "
         "present or gone from the book at expiry, whole hours missing from the option data; buckets = (interval, kind, moneyness ITM/OTM/ATM, "
         "payoff>fee or not, expiry position class, row present/absent, settled at which kind of bar) and (trade attempt, bar open/closed, outcome)")
 TRUSTED = ["the payoff ratio |S-K|/S is float arithmetic (numpy) on book rows: reproduced with Lean Float in the driver, exact reals in the theorems; "
@@ -46,9 +48,12 @@ def round6(x: Fraction) -> Fraction:
 
 
 # ------------------------------------------------------------------------------------------ scenario
-def gen_scenario(rng):
-    interval = rng.choice(("1min", "1min", "1min", "1h", "5min"))
-    n_hours = rng.randint(2, 5) if interval == "1min" else rng.randint(3, 8)
+INTERVAL_MIN = {"1min": 1, "5min": 5, "1h": 60, "2h": 120, "4h": 240}
+
+
+def gen_scenario(rng, intervals=("1min", "1min", "1min", "1h", "5min", "2h", "2h", "4h")):
+    interval = rng.choice(intervals)
+    n_hours = rng.randint(2, 5) if interval == "1min" else (rng.randint(3, 8) if INTERVAL_MIN[interval] <= 60 else rng.randint(6, 14))
     tick = rng.randint(199000, 201000)
     n_ins = rng.choice((1, 2, 3))
     token_price_guess = 10 ** 12 / 1.0001 ** tick
@@ -69,9 +74,18 @@ def gen_scenario(rng):
         else:
             expiry = 60 * n_hours + rng.choice((0, 30, 600))
         gone = rng.random() < 0.45          # does the row leave the book once expired?
+        # barely in the money at expiry while the mark is still well above intrinsic: the payoff is positive but below the delivery fee
+        near = rng.random() < 0.4
+        itm_sign = 1 if kind == "CALL" else -1
         path = []
         for h in range(n_hours):
             r = rng.random()
+            if near:
+                sign = itm_sign if rng.random() < 0.85 else -itm_sign
+                S = round(strike * (1 + sign * rng.choice((2e-6, 1e-5, 3e-5, 1e-4, 1.4e-4, 1.6e-4, 2e-4))), 4)    # within 0.02 % of the strike
+                mark = rng.choice((0.0005, 0.0011, 0.0013, 0.002, 0.01, 0.05, round(rng.uniform(0.0001, 0.2), 4)))    # independent of intrinsic
+                path.append((S, mark))
+                continue
             if r < 0.2:
                 S = float(strike)                                   # at the money exactly
             elif r < 0.45:
@@ -82,7 +96,25 @@ def gen_scenario(rng):
             path.append((S, mark))
         instrs.append({"name": f"ETH-X{i}-{strike}-{'C' if kind == 'CALL' else 'P'}", "kind": kind, "strike": strike, "expiry": expiry,
                        "exp_cls": exp_cls, "gone": gone, "path": path})
+    # an option bought in mid-run that expires BEFORE everything held since the start: it is due at its own expiry, not at the others'
+    late_buy = None
+    step_h = max(1, INTERVAL_MIN[interval] // 60)
+    if n_ins >= 2 and n_hours >= 3 * step_h + 1 and rng.random() < 0.5:
+        a, b = instrs[0], instrs[1]
+        a["expiry"], a["exp_cls"] = rng.choice((60 * n_hours + 600, 60 * (n_hours - 1))), "late-holder"
+        hb = rng.randint(1, max(1, (n_hours - 2) // step_h - 1)) * step_h              # the bar it is bought on (on the grid, not the first)
+        he = rng.randint(hb + step_h, n_hours - 1)                                     # it expires after that, inside the run
+        b["expiry"], b["exp_cls"] = 60 * he - rng.choice((0, 0, 25)), "bought-late-expires-first"
+        b["gone"] = rng.random() < 0.3
+        late_buy = (60 * hb, b["name"], a["name"])
     missing = set(h for h in range(0, n_hours) if rng.random() < 0.15)
+    if step_h > 1 and rng.random() < 0.7:
+        # a whole bar of the coarse grid without option data, between hours that have data (resampling labels that bar all the same)
+        b = rng.randint(1, max(1, (n_hours - 1) // step_h - 1))
+        missing |= set(range(b * step_h, min(n_hours, (b + 1) * step_h)))
+    missing.discard(0)              # the first bar has data (a run that starts in a gap is the directed case first_hour_missing)
+    if late_buy is not None:
+        missing.discard(late_buy[0] // 60)      # the bar of the purchase has data
     if len(missing) == n_hours:
         missing.discard(n_hours - 1)
     hours = []
@@ -105,10 +137,13 @@ def gen_scenario(rng):
         hours.append((60 * h, rows))
     positions = []
     for ins in instrs:
-        if rng.random() < 0.75:
+        held = rng.random() < 0.75
+        if late_buy is not None and ins["name"] in late_buy[1:]:
+            held = ins["name"] == late_buy[2]
+        if held:
             positions.append({"name": ins["name"], "expiry": ins["expiry"], "strike": ins["strike"], "kind": ins["kind"],
                               "amount": str(rng.choice((1, 2, 3, 10, 57, 400)))})
-    # scripted strategy: minute -> ops
+    # scripted strategy: minute -> ops (each with the hook it is issued from: before_bar / on_bar / after_bar / notify)
     script = {}
     last = 60 * n_hours - 1 if interval == "1min" else 60 * (n_hours - 1)
     for _ in range(rng.randint(2, 7)):
@@ -117,10 +152,7 @@ def gen_scenario(rng):
             m = 60 * rng.randint(0, n_hours - 1)
         else:
             m = rng.randint(0, last)
-        if interval == "5min":
-            m -= m % 5
-        elif interval == "1h":
-            m -= m % 60
+        m -= m % INTERVAL_MIN[interval]
         ins = rng.choice(instrs)
         r = rng.random()
         if r < 0.5:
@@ -131,9 +163,27 @@ def gen_scenario(rng):
             op = {"type": "deposit", "amount": Decimal(rng.randint(1, 50)) / 100}
         else:
             op = {"type": "withdraw", "amount": Decimal(rng.randint(1, 50)) / 100}
-        script.setdefault(m, []).append(op)
+        add_scripted(rng, script, m, op)
+    if late_buy is not None:
+        script.setdefault(late_buy[0], []).insert(0, {"type": "buy", "name": late_buy[1], "amount": rng.randint(1, 3)})
     return {"interval": interval, "n_hours": n_hours, "tick": tick, "instrs": instrs, "hours": hours, "positions": positions,
             "script": script, "cash": "5", "wallet": "10"}
+
+
+def add_scripted(rng, script, m, op, phases=(("on", 0.7), ("before", 0.1), ("after", 0.1), ("notify", 0.1))):
+    """file `op` under minute m with the hook it comes from; `notify` only runs when the bar recorded an action, so a small deposit in on_bar
+    goes with it"""
+    r, acc, phase = rng.random(), 0.0, "on"
+    for ph, w in phases:
+        acc += w
+        if r < acc:
+            phase = ph
+            break
+    if phase != "on":
+        op = dict(op, phase=phase)
+    if phase == "notify":
+        script.setdefault(m, []).append({"type": "deposit", "amount": Decimal(rng.randint(1, 9)) / 1000})
+    script.setdefault(m, []).append(op)
 
 
 # ------------------------------------------------------------------------------------------ running the real thing
@@ -141,25 +191,47 @@ def make_strategy(script, mkey, rec):
     from demeter import Strategy
 
     class Scripted(Strategy):
-        def on_bar(self, snapshot):
+        def _rig(self):
             market = self.broker.markets[mkey]
-            rig = SimpleNamespace(market=market, broker=self.broker, tok=market.token)
-            m = L.minutes(snapshot.timestamp)
-            bar = {"now": m, "ops": [], "n_actions_before": len(self.actuator._currents.actions)}
-            for op in script.get(m, []):
+            return SimpleNamespace(market=market, broker=self.broker, tok=market.token)
+
+        def _run(self, bar, phase):
+            rig = self._rig()
+            for op in script.get(bar["now"], []):
+                if op.get("phase", "on") != phase:
+                    continue
                 S = L.dump_state(rig)
                 out, res = L.apply_op(rig, op)
                 S2 = L.dump_state(rig)
-                bar["ops"].append({"op": op, "out": out, "before": S, "after": S2})
-            bar["pre"] = L.dump_state(rig)
-            bar["n_actions_pre"] = len(self.actuator._currents.actions)
+                bar["ops"].append({"op": op, "phase": phase, "out": out, "res": res, "before": S, "after": S2})
+
+        def before_bar(self, snapshot):
+            bar = {"now": L.minutes(snapshot.timestamp), "ops": [], "n_actions_before": len(self.actuator._currents.actions), "notified": False}
             rec.append(bar)
+            self._run(bar, "before")
+
+        def on_bar(self, snapshot):
+            bar = rec[-1]
+            self._run(bar, "on")
+            bar["pre"] = L.dump_state(self._rig())                     # right before update()
+            bar["n_actions_pre"] = len(self.actuator._currents.actions)
 
         def after_bar(self, snapshot):
-            market = self.broker.markets[mkey]
-            rig = SimpleNamespace(market=market, broker=self.broker, tok=market.token)
             bar = rec[-1]
-            bar["post"] = L.dump_state(rig)
+            bar["post"] = L.dump_state(self._rig())                    # right after update()
+            bar["n_actions_post"] = len(self.actuator._currents.actions)
+            self._run(bar, "after")
+            bar["final"] = L.dump_state(self._rig())                   # what the bar's account row is about
+            bar["row_state"] = bar["final"]
+            bar["actions"] = list(self.actuator._currents.actions)
+
+        def notify(self, action):
+            # called once per recorded action after the bar's account row; actions recorded here are notified in the same loop
+            bar = rec[-1]
+            if not bar["notified"]:
+                bar["notified"] = True
+                self._run(bar, "notify")
+                bar["final"] = L.dump_state(self._rig())
             bar["actions"] = list(self.actuator._currents.actions)
     return Scripted()
 
@@ -193,17 +265,26 @@ def run_real(sc):
 
 
 # ------------------------------------------------------------------------------------------ oracle
-def row_at(sc, hour_min, name):
-    for m, rows in sc["hours"]:
-        if m == hour_min:
+def bar_rows(sc, m):
+    """the option rows in force at the bar of minute m, from the scenario's own hourly data: the hour's rows; on a grid coarser than one
+    hour, for each instrument its first row inside the bar (what resampling with first() keeps) -- an instrument without a row inside
+    the bar is absent from it, a bar without any row is a bar without option data"""
+    width = max(60, INTERVAL_MIN.get(sc["interval"], 1))
+    start = m - m % 60 if width == 60 else m - m % width
+    out = {}
+    for hm, rows in sorted(sc["hours"], key=lambda x: x[0]):
+        if start <= hm < start + width:
             for r in rows:
-                if r["name"] == name:
-                    return r
-    return None
+                out.setdefault(r["name"], r)
+    return out
+
+
+def row_at(sc, hour_min, name):
+    return bar_rows(sc, hour_min).get(name)
 
 
 def hour_present(sc, m):
-    return any(hm == m and rows for hm, rows in sc["hours"])
+    return bool(bar_rows(sc, m))
 
 
 def expected_payoff(pos, S: Fraction, mark: Fraction):
@@ -241,6 +322,8 @@ def oracle(ctx, sc, rec, balances, prices, rep):
                     v(f"trade-crash.{o['out']}", f"{t} at minute {now} raised {o['out']}")
         # ---- settlement
         pre, post = bar["pre"], bar["post"]
+        if L.has_nan(pre["book"]):
+            ctx.count("bars_whose_book_has_nan_rows")        # judged through what follows from it: settlement, trades, (C01) the reported value
         due = [p for p in pre["positions"] if on_grid and p["expiry"] <= now]
         keep = [p for p in pre["positions"] if not (on_grid and p["expiry"] <= now)]
         post_keys = [p["key"] for p in post["positions"]]
@@ -253,7 +336,7 @@ def oracle(ctx, sc, rec, balances, prices, rep):
                 v("not-settled-at-first-open-bar", f"{p['key']} (expiry minute {p['expiry']}) still held after the on-grid bar at minute {now}")
         if post["positions"] != keep and not any(p["key"] in post_keys for p in due):
             v("settlement-touched-other-positions", f"positions after update at minute {now} differ from the non-due positions")
-        upd_actions = [L.dump_action(a) for a in bar["actions"][bar["n_actions_pre"]:]]
+        upd_actions = [L.dump_action(a) for a in bar["actions"][bar["n_actions_pre"]:bar["n_actions_post"]]]
         exp_names = [a["name"] for a in upd_actions if a["type"] == "expired"]
         del_names = [a["name"] for a in upd_actions if a["type"] == "deliver"]
         if sorted(exp_names) != sorted(p["key"] for p in due):
@@ -294,16 +377,21 @@ def model_request(sc, rec, prices, dm):
     books, book_idx = [], {}
     bars = []
     hours_present = set(m for m, rows in sc["hours"] if rows)
+    width = max(60, INTERVAL_MIN.get(sc["interval"], 1))
     for bar in rec:
         now = bar["now"]
-        hm = now - now % 60
+        hm = now - now % width
         if hm not in book_idx:
-            rows = next((rows for m, rows in sc["hours"] if m == hm), [])
+            rows = list(bar_rows(sc, now).values())
+            rows.sort(key=lambda r: r["name"])               # the frame is sorted by (time, instrument_name)
             book_idx[hm] = len(books)
             books.append(L.dump_book(L.book_frame(rows)) if rows else [])
-        bars.append({"now": now, "flagOpen": now in hours_present, "book": book_idx[hm],
-                     "price": Fraction(prices.loc[L.ts_of(now)]["ETH"]), "priceDec": True,
-                     "ops": [L.op_json(o["op"]) for o in bar["ops"]]})
+        ops = {"before": [], "on": [], "after": [], "notify": []}
+        for op in sc["script"].get(now, []):
+            ops[op.get("phase", "on")].append(L.op_json(op))
+        bars.append({"now": now, "flagOpen": bool(now % width == 0 and books[book_idx[hm]]) if width > 60 else now in hours_present,
+                     "book": book_idx[hm], "price": Fraction(prices.loc[L.ts_of(now)]["ETH"]), "priceDec": True,
+                     "ops": ops["before"] + ops["on"], "opsAfter": ops["after"], "opsNotify": ops["notify"]})
     pos = []
     for p in sc["positions"]:
         pos.append({"key": p["name"], "name": p["name"], "expiry": p["expiry"], "strike": Fraction(p["strike"]), "kind": p["kind"],
@@ -328,8 +416,14 @@ def compare(ctx, sc, rec, balances, ans, rep):
         if outs != m["outcomes"]:
             ctx.disagree(f"minute {bar['now']}: outcomes impl {outs} model {m['outcomes']}", dict(rep, bar=i))
             return
-        post = dict(bar["post"])
+        post = dict(bar["final"])
         post["book"] = []
+        for o, mr in zip(bar["ops"], m.get("results", [])):
+            if o["op"]["type"] == "balance" and o["out"] == "ok":
+                dd = L.diff(o["res"], mr, "balance-read")
+                if dd:
+                    ctx.disagree(f"minute {bar['now']}: {o['phase']} {dd}", dict(rep, bar=i))
+                    return
         ms = m["state"]
         ms["wallet"] = [[w[0], Fraction(w[1])] for w in mb[i]["state"]["wallet"]]
         # the cached balance is refreshed by the account-status call that follows after_bar: compared through `balance` below
@@ -365,7 +459,9 @@ def directed():
         return {"name": f"ETH-D-{strike}-{'C' if kind == 'CALL' else 'P'}", "kind": kind, "strike": strike, "expiry": expiry, "exp_cls": "directed",
                 "gone": gone, "path": path}
     out = []
-    for kind, strike, S in (("CALL", 1600, 1651.94), ("PUT", 1700, 1651.94), ("CALL", 1700, 1651.94), ("PUT", 1600, 1651.94), ("CALL", 1650, 1650.0)):
+    for kind, strike, S in (("CALL", 1600, 1651.94), ("PUT", 1700, 1651.94), ("CALL", 1700, 1651.94), ("PUT", 1600, 1651.94), ("CALL", 1650, 1650.0),
+                             # barely in the money, mark (0.0479) far above intrinsic: payoff 0.000125 < delivery fee 0.0003 -> nothing is paid
+                             ("CALL", 1600, 1600.1), ("PUT", 1600, 1599.9)):
         for expiry, gone in ((60, False), (75, False), (60, True)):
             i = ins(kind, strike, expiry, [(S, 0.0479)] * 4, gone)
             hours = []
@@ -385,6 +481,28 @@ def directed():
     return out
 
 
+def coarse_gap():
+    """interval 2h / 4h, a whole coarse bar without option data inside the life of the instrument, an in-the-money call that expires in the gap:
+    it settles at the first on-grid bar at or after expiry -- the gap bar -- against the token price (the row is absent there)"""
+    out = []
+    for interval, n_hours, gap in (("2h", 8, (4, 5)), ("4h", 13, (4, 5, 6, 7)), ("2h", 8, (2, 3))):
+        strike = 1900
+        name = "ETH-G-1900-C"
+        expiry = 60 * gap[0] + 30 if interval == "2h" else 60 * gap[0]
+        hours = []
+        for h in range(n_hours):
+            rows = []
+            if h not in gap:
+                rows.append({"name": name, "state": "open", "kind": "CALL", "strike": strike, "expiry": expiry, "mark": 0.08, "underlying": 2060.0,
+                             "delta": 0.5, "gamma": 0.001, "asks": [[0.085, 50]], "bids": [[0.075, 50]]})
+            hours.append((60 * h, rows))
+        ins = {"name": name, "kind": "CALL", "strike": strike, "expiry": expiry, "exp_cls": "directed-gap", "gone": False, "path": [(2060.0, 0.08)] * n_hours}
+        out.append({"interval": interval, "n_hours": n_hours, "tick": 200000, "instrs": [ins], "hours": hours,
+                    "positions": [{"name": name, "expiry": expiry, "strike": strike, "kind": "CALL", "amount": "3"}],
+                    "script": {0: [{"type": "buy", "name": name, "amount": 2}]}, "cash": "5", "wallet": "10"})
+    return out
+
+
 def first_hour_missing():
     """the option frame has no rows for the hour of the first bar (files of that hour not collected)"""
     sc = directed()[0]
@@ -396,7 +514,7 @@ def first_hour_missing():
 
 def run(ctx: Ctx):
     reqs = []
-    scs = (directed() + [first_hour_missing()]) if not ctx.search else []
+    scs = (directed() + coarse_gap() + [first_hour_missing()]) if not ctx.search else []
     n = ctx.scale(26, 800)
     for _ in range(n):
         scs.append(gen_scenario(ctx.rng))
